@@ -32,6 +32,30 @@ Theorem C32_broker_error_rejected : forall hashf cfg es w rs e w' p r,
 Proof. exact broker_error_rejected. Qed.
 Print Assumptions C32_broker_error_rejected.
 
+(* The same for every interleaving of requests on the session: requests arrive (session
+   lookup), wait for session.mu and run their body atomically in any lock order ([CRun i]),
+   a request that found the session keeps using it after another one deleted it from the
+   map, and the session may expire at any point ([CExpire]).  [executed y c] is the request
+   whose body produced the response. *)
+Theorem C32_success_sound_interleaved : forall hashf cfg cs y rs c y' p env,
+  crun hashf cfg init_sys cs = (y, rs) ->
+  cstep hashf cfg y c = (y', Some p) ->
+  p_env p = Some env ->
+  exists e, executed y c = Some e /\ p_status p = 200 /\
+    completion_reply e = Some (RCode 0) /\
+    exists obj, get_obj (e_key env) (w_objects (y_w y')) = Some obj /\
+                e_size env = bsize obj /\ e_sha env = hashf 0 obj.
+Proof. exact csuccess_sound. Qed.
+Print Assumptions C32_success_sound_interleaved.
+
+Theorem C32_broker_error_rejected_interleaved : forall hashf cfg cs y rs c y' p e r,
+  crun hashf cfg init_sys cs = (y, rs) ->
+  cstep hashf cfg y c = (y', Some p) ->
+  executed y c = Some e -> completion_reply e = Some r -> r <> RCode 0 ->
+  p_status p <> 200 /\ p_env p = None.
+Proof. exact cbroker_error_rejected. Qed.
+Print Assumptions C32_broker_error_rejected_interleaved.
+
 (* non-vacuity: a two-part session completed with the exact list succeeds; listing only
    part 2, a broker error code, and a retried part after an S3 failure are covered *)
 Definition h0 (alg : Z) (b : blob) : bytes := alg :: flat_map (fun c => [fst c; snd c]) b.
@@ -48,4 +72,28 @@ Example C32_nonvacuous :
     [(0, [(1, 5242880); (2, 300)])] /\
   snd (run h0 cfg0 init_world [EProduce [(7, 100)] [] 0 [] (RCode 0); EProduce [(8, 100)] [] 0 [] (RCode 3)]) =
     [mkResp 200 (Some (mkEnv 0 100 (h0 0 [(7, 100)]) (h0 0 [(7, 100)]))); fail 502].
+Proof. vm_compute. repeat split. Qed.
+
+(* two PUTs of part 1 in flight and a Complete racing with them; expiry; a request that
+   found the session before it was completed / aborted *)
+Example C32_nonvacuous_interleaved :
+  let c := [CReq (EInit 100 [] 0 false);
+            CArrive (EPart 1 (3, 100) false); CArrive (EPart 1 (4, 100) false);
+            CArrive (EComplete [(1, 3)] false (RCode 0));
+            CRun 1;      (* the second PUT gets the mutex first *)
+            CRun 0;      (* the first PUT: part already received *)
+            CArrive EAbort;
+            CRun 0;      (* Complete *)
+            CRun 0;      (* Abort on the session that Complete deleted from the map *)
+            CReq (EPart 1 (5, 100) false)] in
+  map (option_map p_status) (snd (crun h0 cfg0 init_sys c)) =
+    [Some 200; None; None; None; Some 200; Some 200; None; Some 400; Some 204; Some 404] /\
+  map (option_map p_status) (snd (crun h0 cfg0 init_sys
+    [CReq (EInit 100 [] 0 false); CArrive (EPart 1 (3, 100) false); CExpire; CRun 0;
+     CReq (EComplete [(1, 3)] false (RCode 0))])) = [Some 200; None; None; Some 410; Some 404] /\
+  snd (crun h0 cfg0 init_sys
+    [CReq (EInit 100 [] 0 false); CArrive (EPart 1 (4, 100) false); CArrive (EPart 1 (3, 100) false);
+     CRun 0; CRun 0; CReq (EComplete [(1, 4)] false (RCode 0))]) =
+    [Some (fail 200); None; None; Some (fail 200); Some (fail 200);
+     Some (mkResp 200 (Some (mkEnv 0 100 (h0 0 [(4, 100)]) (h0 0 [(4, 100)]))))].
 Proof. vm_compute. repeat split. Qed.
